@@ -185,6 +185,44 @@ func genC08(o *hx.Out, tier string) {
 			}
 		}
 	}
+	// the largest frames (payload 253..255 bytes; signed v2 = 280 bytes on the wire) through raw hops
+	for _, plen := range []int{253, 254, 255} {
+		for variant := 0; variant < 3; variant++ {
+			p := make([]byte, plen)
+			r.Read(p)
+			p[plen-1] |= 1
+			raw := &message.MessageRaw{ID: uint32(1 + r.Intn(250)), Payload: p}
+			var fr frame.Frame
+			kt := "-"
+			var k *frame.V2Key
+			switch variant {
+			case 0:
+				fr = &frame.V1Frame{SequenceNumber: byte(r.Intn(256)), SystemID: byte(r.Intn(256)), ComponentID: byte(r.Intn(256)),
+					Message: raw, Checksum: uint16(r.Intn(65536))}
+			default:
+				f := &frame.V2Frame{SequenceNumber: byte(r.Intn(256)), SystemID: byte(r.Intn(256)), ComponentID: byte(r.Intn(256)),
+					Message: raw, Checksum: uint16(r.Intn(65536))}
+				if variant == 2 {
+					f.IncompatibilityFlag = 1
+					f.SignatureLinkID = byte(r.Intn(256))
+					f.SignatureTimestamp = r.Uint64() & (1<<48 - 1)
+					f.Signature = f.GenerateSignature(key)
+					k = key
+					kt = hx.Hex(key[:])
+				}
+				fr = f
+			}
+			cur := manualWire(fr)
+			for h := 0; h < 2 && cur != nil; h++ {
+				impl, next, _ := hop(cur, nil, k, nil)
+				if next != nil && !bytes.Equal(next, cur) {
+					impl += " BYTES-CHANGED"
+				}
+				o.Add("raw-hop max-size", impl, "forward", "-", kt, "-", hx.Hex(cur))
+				cur = next
+			}
+		}
+	}
 	// unknown ids through a dialect-configured router
 	for i := 0; i < 60; i++ {
 		fr := randFrame(r, i%2 == 0, i%4 == 0)
